@@ -201,6 +201,27 @@ def run (op : String) (args : List String) (impl : String) : Option (String × S
   | "tobitsbe", [n, a] =>
     let n ← parseHex? n; let a ← parseHex? a
     some (bitList (toBitsBE (toLimbs n a)), vs impl (bitList ((List.range (64 * n)).reverse.map (fun i => (a / 2 ^ i) % 2 == 1))))
+  -- `ff/src/bits.rs`: the four bit iterators over a limb slice (spec: the binary digits of the value)
+  | "iterbe", [n, a] =>
+    let n ← parseHex? n; let a ← parseHex? a
+    let w := bitList ((List.range (64 * n)).reverse.map (fun i => (a / 2 ^ i) % 2 == 1))
+    some (bitList (toBitsBE (toLimbs n a)), vs impl w)
+  | "iterle", [n, a] =>
+    let n ← parseHex? n; let a ← parseHex? a
+    let w := bitList ((List.range (64 * n)).map (fun i => (a / 2 ^ i) % 2 == 1))
+    some (bitList (toBitsLE (toLimbs n a)), vs impl w)
+  | "iterbenz", [n, a] =>
+    -- `BitIteratorBE::without_leading_zeros`: `skip_while(|b| !b)`
+    let n ← parseHex? n; let a ← parseHex? a
+    let len := if a = 0 then 0 else a.log2 + 1
+    let w := bitList ((List.range len).reverse.map (fun i => (a / 2 ^ i) % 2 == 1))
+    some (bitList ((toBitsBE (toLimbs n a)).dropWhile (fun b => !b)), vs impl w)
+  | "iterlenz", [n, a] =>
+    -- `BitIteratorLE::without_trailing_zeros`: stops after the most significant one
+    let n ← parseHex? n; let a ← parseHex? a
+    let len := if a = 0 then 0 else a.log2 + 1
+    let w := bitList ((List.range len).map (fun i => (a / 2 ^ i) % 2 == 1))
+    some (bitList ((toBitsLE (toLimbs n a)).take (numBits (toLimbs n a))), vs impl w)
   | "frombitsle", [n, bits] =>
     let n ← parseHex? n; let bits ← parseBits? bits
     some (hex (value (fromBitsLE n bits)), vs impl (hex (bitsToNat bits % B ^ n)))
